@@ -413,4 +413,22 @@ theorem reachable_ghost {s : State} (h : Reachable s) : Ghost s := by
   | nil => intro s0 h0; exact h0
   | cons e es ih => intro s0 h0; exact ih _ (step_ghost h0 e)
 
+theorem mem_completeFut {s : State} {f : FutId} {st : FutSt} {h : Handle} (hq : h ∈ s.ready) :
+    h ∈ (completeFut s f st).ready := by
+  unfold completeFut; split
+  · exact List.mem_append_left _ hq
+  · exact hq
+
+theorem mem_cancelTask {s : State} {u : TaskId} {h : Handle} (hq : h ∈ s.ready) :
+    h ∈ (cancelTask s u).ready := by
+  unfold cancelTask
+  simp only
+  split
+  · exact hq
+  · split
+    · split
+      · exact mem_completeFut hq
+      · exact hq
+    · exact hq
+
 end Asynkit.Kernel
